@@ -21,7 +21,7 @@ var c16BuiltinDateParsers = []string{"dateTimeOptional", "unix_sec", "unix_milli
 var c16PropNames = []string{"a", "b", "c", "obj", "tags"}
 
 type c16Stats struct {
-	custom, nonDefaultOpt, subDoc, nested int
+	custom, nonDefaultOpt, subDoc, nested, emptyLists int
 }
 
 func genCustomAnalysis(t *rapid.T, m *mapping.IndexMappingImpl, st *c16Stats) (analyzers, dateParsers []string) {
@@ -163,6 +163,16 @@ func genDocMapping(t *rapid.T, depth int, top bool, analyzers, dateParsers []str
 		for i, n := 0, rapid.IntRange(0, 2).Draw(t, "dm.nfields"); i < n; i++ {
 			dm.AddFieldMapping(genFieldMapping(t, analyzers, dateParsers, st))
 		}
+	}
+	// explicitly empty (non-nil) lists and maps, as user JSON with "fields":[] / "properties":{}
+	// produces; they vanish from the JSON form (omitempty) and come back as nil
+	if len(dm.Fields) == 0 && rapid.IntRange(0, 2).Draw(t, "dm.emptyFields") == 0 {
+		dm.Fields = []*mapping.FieldMapping{}
+		st.emptyLists++
+	}
+	if len(dm.Properties) == 0 && rapid.IntRange(0, 3).Draw(t, "dm.emptyProps") == 0 {
+		dm.Properties = map[string]*mapping.DocumentMapping{}
+		st.emptyLists++
 	}
 	return dm
 }
@@ -328,6 +338,9 @@ func TestC16MappingJSON(t *testing.T) {
 			}
 			if st.custom > 0 {
 				cl = append(cl, "custom-analysis")
+			}
+			if st.emptyLists > 0 {
+				cl = append(cl, "explicitly-empty-fields-or-properties")
 			}
 			if errA != nil {
 				cl = append(cl, "map-document-error")
